@@ -318,6 +318,23 @@ Next == x' = x
                         for nthread, nparts in ((1, None), (4, None), (2, 2), (1, 3)):
                             for hw in (False, True):
                                 outs.append((f'tsc_parallel nthread={nthread} npartition={nparts} weights={hw}', supplied(empty.copy(), base0.copy(), box, weights=(np.zeros(0, dtype=pdt) if hw else None), nthread=nthread, npartition=nparts)))
+                        # the grid requested by size (a shape tuple; an int for cubic grids): a zero grid of that shape comes back
+                        for spec_ in ([tuple(int(v) for v in shape)] + ([int(shape[0])] if shape[0] == shape[1] == shape[2] else [])):
+                            for nthread in (1, 3):
+                                r0 = tsc_parallel(empty.copy(), spec_, box, nthread=nthread)
+                                nrun[0] += 1
+                                if not isinstance(r0, np.ndarray) or r0.shape != tuple(shape) or np.any(r0 != 0):
+                                    chk.violation('TSC-empty-allocated-grid', f'tsc_parallel(no particles, densgrid={spec_!r}, nthread={nthread}) returned {type(r0).__name__} '
+                                                  f'{getattr(r0, "shape", r0)!r}; expected a zero array of shape {tuple(shape)}', dict(fn='empty', kind=kind, shape=list(shape)))
+                        # and with particles: the allocated grid equals the deposit into a supplied zero grid
+                        msx = np.stack([rng.integers(0, shape[a] * Q + 1, 5) for a in range(3)], axis=1)
+                        px = positions(msx, shape, box, pdt)
+                        want_g = supplied(px.copy(), np.zeros(shape, dtype=np.float32), box, nthread=2)
+                        for spec_ in ([tuple(int(v) for v in shape)] + ([int(shape[0])] if shape[0] == shape[1] == shape[2] else [])):
+                            r1 = tsc_parallel(px.copy(), spec_, box, nthread=2)
+                            nrun[0] += 1
+                            if not isinstance(r1, np.ndarray) or r1.shape != tuple(shape) or not np.array_equal(r1.astype(np.float64), want_g.astype(np.float64)):
+                                chk.violation('TSC-allocated-grid', f'tsc_parallel(densgrid={spec_!r}) differs from the deposit into a supplied zero grid of that shape', dict(fn='empty', kind=kind, shape=list(shape)))
                     else:
                         g = base0.copy()
                         cic_serial(empty, g, box)
